@@ -376,6 +376,49 @@ func init() {
 					}
 				}
 			}
+			// ProjectList over several documents equals Project applied to each document on its own (no state carried from
+			// one document to the next): the generated document between two variants of different shape
+			if !malformed {
+				v1 := bsonkit.Clone(&doc)
+				v2 := bsonkit.Clone(&doc)
+				for i := range *v2 {
+					switch (*v2)[i].Value.(type) {
+					case bson.A:
+						(*v2)[i].Value = "scalar"
+					case bson.D:
+						(*v2)[i].Value = bson.A{int32(1), int32(2), int32(3)}
+					}
+				}
+				v3 := bson.D{{Key: "_id", Value: int32(99)}}
+				list := bsonkit.List{v1, v2, &v3, bsonkit.Clone(&doc)}
+				differs := run.Safe(func() string {
+					got, err := mongokit.ProjectList(list, &proj)
+					for i, d := range list {
+						want, err2 := mongokit.Project(bsonkit.Clone(d), &proj)
+						if (err == nil) != (err2 == nil) && i == 0 && err2 != nil {
+							return "" // the list fails at its first failing document; compared below only when all succeed
+						}
+						if err2 != nil {
+							return ""
+						}
+						if err == nil && (i >= len(got) || vj.Enc(*got[i]) != vj.Enc(*want)) {
+							return "document " + strconv.Itoa(i) + ": list gives " + func() string {
+								if i < len(got) {
+									return vj.Enc(*got[i])
+								}
+								return "nothing"
+							}() + ", alone " + vj.Enc(*want)
+						}
+					}
+					if err != nil {
+						return "the list fails although every document projects alone"
+					}
+					return ""
+				})
+				if differs != "" && !strings.HasPrefix(differs, `{"panic"`) {
+					viols = append(viols, run.Violation{Property: "C14", What: "ProjectList differs from projecting each document on its own", Witness: "projectlist-differs", Req: req, Detail: differs})
+				}
+			}
 			// independent statements of the two operator overlays (single-operator projections on a top-level array)
 			if ok && !malformed && inDomain {
 				if v := overlayOracle(doc, proj); v != "" {
